@@ -136,6 +136,8 @@ class AuditLog(object):
                 path = os.fsdecode(path)
             if not isinstance(path, str):
                 return
+            # however the caller spelled it (relative, '//', './', '..'): judged by the file it names
+            path = os.path.normpath(os.path.abspath(path))
             if self.prefix is not None and not path.startswith(self.prefix):
                 return
             writing = False
@@ -153,7 +155,7 @@ class AuditLog(object):
             pass
 
     def begin(self, prefix):
-        self.prefix = prefix
+        self.prefix = os.path.normpath(os.path.abspath(prefix)) if prefix is not None else None
         self.events = []
         self.active = True
 
